@@ -49,6 +49,11 @@ def state_writes(ix):
             if isinstance(n, ast.Global):
                 for g in n.names:
                     out.append((q, f"global {g}", n.lineno))
+            if isinstance(n, ast.AugAssign) and isinstance(n.target, ast.Name) and n.target.id in aliases and isinstance(n.op, ast.Add) \
+                    and isinstance(n.value, (ast.List, ast.ListComp, ast.Call, ast.Name, ast.Attribute, ast.BinOp)) and not isinstance(n.value, ast.Constant):
+                # `alias += <sequence>` extends the aliased list IN PLACE (an int/str alias would be rebound, but then the
+                # right-hand side is a number or string literal, excluded above)
+                out.append((q, aliases[n.target.id], n.lineno))
             if isinstance(n, (ast.Assign, ast.AugAssign, ast.AnnAssign)):
                 tg = n.targets if isinstance(n, ast.Assign) else [n.target]
                 for t in tg:
